@@ -88,6 +88,14 @@ Theorem C08_newV_pos (s : state Rops) cmin cmax nb i : Inv s -> change_ok cmin c
 Proof. exact (newV_pos s cmin cmax nb i). Qed.
 Print Assumptions C08_newV_pos.
 
+(* [ext] before the rescaling the re-binning conserves the NUMBER of particles when the new grid covers
+   the populated range (each old class is shared out completely among the new classes it overlaps) *)
+Theorem C08_remesh_conserves_number (s : state Rops) cmin cmax nb : Inv s -> change_ok cmin cmax nb ->
+  covered s cmin (newMax cmin cmax) ->
+  sumR (remapped s cmin cmax nb) = sumR (psd s).
+Proof. exact (remap_conserves_number s cmin cmax nb). Qed.
+Print Assumptions C08_remesh_conserves_number.
+
 (* the automatic adjustment (extension, coarsening, refinement after dissolution) conserves the third
    moment when every populated class holds more than one particle (what UpdatePBMEuler leaves, up to
    the value 1 itself): its new grids then cover the populated range *)
